@@ -15,7 +15,8 @@ EXTENDS CaseCommon
 
 CONSTANTS
   Sizes,       \* dimension sizes offered, e.g. {1, 2} or {1, 2, 3}
-  MaxRank      \* maximal operand rank for the generic families
+  MaxRank,     \* maximal operand rank for the generic families
+  Pats         \* value patterns for the polynomial families: "A" (mixed-sign distinct integers), "S" (halves in [-2, 2], zeros included)
 
 \* ---------------------------------------------------------------------------
 \* shapes
@@ -30,7 +31,7 @@ Scalars == {QI(2), QI(0 - 3), <<1, 2>>}
 
 \* ---------------------------------------------------------------------------
 \* case sets per family.  A case: [op, shapes, a (argument record), pat]
-BinCases == {C(op, <<s1, s2>>, NoArg, "A") : op \in {"add", "sub", "mul", "div"}, s1 \in Shapes, s2 \in Shapes}
+BinCases == {C(op, <<s1, s2>>, NoArg, pt) : op \in {"add", "sub", "mul", "div"}, s1 \in Shapes, s2 \in Shapes, pt \in Pats}
 
 ScalarCases ==
   {C(op, <<s>>, [c |-> c], "A") : op \in {"addc", "raddc", "subc", "rsubc", "mulc", "rmulc", "divc", "rdivc"}, s \in Shapes, c \in Scalars}
@@ -46,8 +47,8 @@ RtermCases ==
 MMSizes == Sizes
 Batches == {<<>>, <<1>>, <<2>>} \cup (IF 3 \in Sizes THEN {<<3>>, <<2, 1>>, <<1, 2>>} ELSE {})
 MatmulCases ==
-  {C("matmul", <<b1 \o <<m, t>>, b2 \o <<t2, n>>>>, NoArg, "A") :
-     b1 \in Batches, b2 \in Batches, m \in MMSizes, t \in MMSizes, t2 \in MMSizes, n \in MMSizes}
+  {C("matmul", <<b1 \o <<m, t>>, b2 \o <<t2, n>>>>, NoArg, pt) :
+     b1 \in Batches, b2 \in Batches, m \in MMSizes, t \in MMSizes, t2 \in MMSizes, n \in MMSizes, pt \in Pats}
 AddmmCases ==
   UNION {{C("addmm", <<sa, <<q[1], q[2]>>, <<q[3], q[4]>>>>, NoArg, "A") :
             sa \in {<<>>, <<1>>, <<q[4]>>, <<q[1], 1>>, <<1, q[4]>>, <<q[1], q[4]>>, <<q[1] + 1, q[4]>>, <<1, 1, q[4]>>}} :
@@ -58,8 +59,8 @@ RedArgs(n) == {<<>>} \cup {<<d>> : d \in Dims(n)} \cup {<<p[1], p[2]>> : p \in P
               \cup (IF n >= 2 THEN {<<0, 0>>, <<0, 0 - n>>} ELSE {})                  \* repeated dim
               \cup (IF n >= 3 THEN {<<0, 0 - 1, 1>>} ELSE {})
 RedCases ==
-  {C(op, <<s>>, [dims |-> dims, keep |-> keep], "A") :
-     op \in {"sum", "mean"}, s \in Shapes, dims \in RedArgs(MaxRank), keep \in BOOLEAN}
+  {C(op, <<s>>, [dims |-> dims, keep |-> keep], pt) :
+     op \in {"sum", "mean"}, s \in Shapes, dims \in RedArgs(MaxRank), keep \in BOOLEAN, pt \in Pats}
 ExtArgs(n) == {<<>>} \cup {<<d>> : d \in Dims(n)}
 ExtCases ==
   {C(op, <<s>>, [dims |-> dims, keep |-> keep], pat) :
